@@ -368,6 +368,10 @@ def get_field_types(type_: type[DataclassInstance]) -> dict[Field, Any]:
         if isinstance(f_type, str):
             f_type = get_type_hints(type_).get(field.name)
 
+        if f_type is None and field.type is None:
+            # Plain `None` annotation is the same as NoneType
+            f_type = type(None)
+
         if f_type is None:
             raise RuntimeError(f"Could not determine type of field {field.name} for type {type_}")
 
